@@ -226,6 +226,27 @@ class Plan:
         return s
 
 
+USERINFO_SHAPES = ("plain", "at", "at_user", "colon")
+
+
+def userinfo_credentials(secret: dict, shape: str) -> str:
+    """`user:password` text for the URL (delimiters inside it left unencoded, as a user types them); updates the secret in place.
+    RFC 3986 / urlsplit / requests / curl: userinfo ends at the LAST '@' of the authority, the user at the FIRST ':'."""
+    v = secret["value"]
+    if shape == "at":
+        head, tail = v[:-2] + "H", "T" + v
+        secret["value"] = f"{head}@{tail}"
+        secret["fragments"] = [head, tail[:-2]]
+    elif shape == "colon":
+        head, tail = v[:-2] + "H", "T" + v
+        secret["value"] = f"{head}:{tail}"
+        secret["fragments"] = [head, tail[:-2]]
+    elif shape == "at_user":
+        secret["user"] = "user@corp.example"
+    secret["stem"] = shape in ("plain", "at_user")
+    return f"{secret['user']}:{secret['value']}"
+
+
 HEADER_KEYS = sorted(SPEC_KEYS - {"cookie"})
 QUERY_KEYS = ["api_key", "api-key", "apikey", "token", "password", "secret", "auth", "session", "csrf_token", "private_key", "credentials",
               "passwd"]
@@ -287,7 +308,7 @@ def build(item: dict) -> tuple[Plan, dict, dict]:
             argv += ["--set-header", f"{name}={s['value']}"]
     if group in ("userinfo", "links"):
         s = plan.plant("userinfo", "userinfo", "<userinfo>", "u", user="user")
-        base_url = f"http://user:{s['value']}@{HOST}"
+        base_url = f"http://{userinfo_credentials(s, item.get('userinfo_shape', 'plain'))}@{HOST}"
 
     q_names = _dedupe([sp(n) for n in QUERY_KEYS + sorted(MARKER_ONLY.values())]) if group != "secgen" else []
     for name in q_names:
@@ -426,6 +447,9 @@ def items(tier: str, seed: int) -> list[dict]:
                 add(group, b["spellings"][(k + j) % len(b["spellings"])], config, "fuzzing", 1)
         for group, how, config in b["round2_runs"]:
             add(group, how, config, "stateful" if group == "links" else "fuzzing", 1)
+        for shape in USERINFO_SHAPES[1:]:
+            out.append({"kind": "cli", "group": "userinfo", "spelling": b["spellings"][0], "config": "on", "phases": "fuzzing",
+                        "workers": 1, "max_examples": 2, "userinfo_shape": shape})
     else:
         for phases, workers in [(b["phases"][0], 1), (b["phases"][1], 1), (b["phases"][0], 2)]:
             for config in b["configs"]:
@@ -439,6 +463,12 @@ def items(tier: str, seed: int) -> list[dict]:
                 add("hdr", how, config, b["phases"][0], 1)
             for config in b["configs"] + b["round2_configs"]:
                 add("links", how, config, "stateful", 1)
+        for shape in USERINFO_SHAPES[1:]:
+            for config in b["configs"]:
+                for group in ("userinfo", "links"):
+                    out.append({"kind": "cli", "group": group, "spelling": b["spellings"][0], "config": config,
+                                "phases": "stateful" if group == "links" else b["phases"][0], "workers": 1, "max_examples": 2,
+                                "userinfo_shape": shape})
     return out
 
 
@@ -512,6 +542,9 @@ def forms_of(secret: dict) -> list[tuple[str, str]]:
         out.append(("percent", p))
     if secret.get("stem", True) and v.endswith("!z"):
         out.append(("partial", v[:-2]))
+    for frag in secret.get("fragments", ()):
+        # a secret that contains a URL delimiter ('@', ':'): each side on its own is still part of the secret
+        out.append(("partial", frag))
     if secret.get("user"):
         out.append(("base64", base64.b64encode(f"{secret['user']}:{v}".encode()).decode()))
     for frag in b64_fragments(v.encode("utf-8", "replace")):
@@ -1083,7 +1116,7 @@ def check_curl(item: dict) -> Result:
             schemathesis.sanitization.configure(**calls["configure"])
         if calls.get("extend"):
             schemathesis.sanitization.extend(**calls["extend"])
-        for userinfo in (False, True):
+        for userinfo in (False,) + USERINFO_SHAPES:
             for variant in ("case_headers", "extra_headers", "query", "query_multi", "cookies"):
                 plan = Plan(item)
                 secrets = []
@@ -1109,7 +1142,7 @@ def check_curl(item: dict) -> Result:
                     u = plan.plant("as_curl_userinfo", "userinfo", "<userinfo>", "u", user="user")
                     u["source"] = "case"
                     secrets.append(u)
-                    base = f"http://user:{u['value']}@{HOST}"
+                    base = f"http://{userinfo_credentials(u, userinfo)}@{HOST}"
                 live = plan.plant("as_curl_header", "req_header", "X-Live-Always", "k", control="live")
                 live["source"] = "case"
                 secrets.append(live)
